@@ -468,3 +468,11 @@ func nsWindowQuoted(offsets []int, b []byte, lo int) bool {
 //@ trusted NOT PROVED: objectNamespace.insert uses Go maps (outside the subset); frame-only contract
 //@ requires ns != nil
 //@ modifies ns.endOffsets, ns.allUnquotedNames, ns.mapNames
+
+// removeLast uses a Go map (delete) once the namespace has switched to one; NOT
+// proved. Assumed: it touches only the namespace's own fields.
+//
+//@ func (*objectNamespace).removeLast
+//@ trusted NOT PROVED: uses Go maps (outside the subset); frame-only contract
+//@ requires ns != nil
+//@ modifies ns.endOffsets, ns.allUnquotedNames, ns.mapNames
